@@ -17,4 +17,4 @@ for _f in sorted(glob.glob(os.path.join(_here, "reg", "*.py"))):
 NOT_APPLICABLE = {}
 
 # commits in /repo that add build-tag-guarded hooks
-HOOK_COMMITS = []
+HOOK_COMMITS = ["f9c6782 app/verif_export.go keeper accessors", "b3d4e6b x/pocketcore verif_yield.go + 2 call lines (relay schedule yield points)"]
